@@ -1,3 +1,320 @@
-(** C06 proofs. *)
-From Verif Require Import Lib.Base C06.Spec C06.Model.
+(** C06 proofs: the invariant holds along every schedule; the clauses of the
+    specification hold of every event the model appends to its history. *)
+From Verif Require Import Lib.Base C06.Spec C06.Model C06.Lemmas C06.Inv C06.InvB C06.InvC C06.InvD C06.InvE C06.InvV C06.InvX.
+From Coq Require Import Permutation.
 Local Open Scope nat_scope.
+
+Record Inv (c : config) (s : st) : Prop :=
+  { iA : InvA s; iB : InvB s; iC : InvC s; iD : InvD s; iE : InvE s; iV : InvV s; iX : InvX c s }.
+
+Lemma inv_init c : Inv c init.
+Proof.
+  constructor; [apply invA_init | apply invB_init | apply invC_init | apply invD_init
+               | apply invE_init | apply invV_init | apply invX_init].
+Qed.
+
+Lemma inv_step c s a s' : valid c -> Inv c s -> step c s a = Some s' -> Inv c s'.
+Proof.
+  intros Hv [HA HB HC HD HE HV HX] H. constructor.
+  - eapply invA_step; eauto.
+  - eapply invB_step; eauto.
+  - eapply invC_step; eauto.
+  - eapply invD_step; eauto.
+  - eapply invE_step; eauto.
+  - eapply invV_step; eauto.
+  - eapply invX_step; eauto.
+Qed.
+
+Lemma inv_run c sch : valid c -> forall s s', Inv c s -> run_from c s sch = Some s' -> Inv c s'.
+Proof.
+  intro Hv. induction sch as [|a r IH]; cbn; intros s s' Hi H.
+  - inversion H; now subst.
+  - destruct (step c s a) eqn:E; [|discriminate]. eapply IH; [|exact H]. eapply inv_step; eauto.
+Qed.
+
+Theorem inv_reach c sch s : valid c -> exec c sch = Some s -> Inv c s.
+Proof. intros Hv H. eapply inv_run; eauto using inv_init. Qed.
+
+(** ** the exporter-side clauses at the moment Export is entered *)
+Lemma begin_ok_holds c s rs resp :
+  valid c -> Inv c s -> ex s = XNext rs resp ->
+  begin_ok all_guards c (hist s) (firstn (maxb c) rs) = true.
+Proof.
+  intros [_ [Hm _]] [HA HB HC HD _ _ _] He. unfold begin_ok.
+  pose proof (a_next s HA) as Hn. rewrite He in Hn.
+  assert (Hsub : forall x, In x (firstn (maxb c) rs) -> In x rs).
+  { intros x Hx. rewrite <- (firstn_skipn (maxb c) rs). apply in_or_app; now left. }
+  assert (Hcnt : forall x, cnt x (exported (hist s)) + cnt x rs <= 1).
+  { intro x. pose proof (b_nodup s HB x). rewrite (b_cnt s HB x) in H. unfold total in H.
+    rewrite He in H. cbn [xpend] in H. lia. }
+  rewrite !andb_true_iff. repeat split.
+  - apply Nat.leb_le. destruct rs; [congruence|]. destruct (maxb c); [lia|]. cbn. lia.
+  - apply Nat.leb_le. apply firstn_le_length.
+  - rewrite (a_open s HA), He. reflexivity.
+  - apply forallb_forall. intros x Hx. apply memb_In. apply (b_prov s HB).
+    apply seqn_in_enq; [assumption|]. rewrite He. cbn [xpend].
+    apply in_or_app; right. apply in_or_app; left. auto.
+  - apply fresh_in_spec. split.
+    + intros x Hx. apply cnt_notin. specialize (Hcnt x). apply Hsub, cnt_In in Hx. lia.
+    + apply NoDup_cnt. intro x. specialize (Hcnt x).
+      pose proof (cnt_split x (maxb c) rs). lia.
+  - destruct (ordered_after (exported (hist s)) (firstn (maxb c) rs)) eqn:Eo; [reflexivity|].
+    cbn [all_guards g_overlap andb].
+    destruct (overlap (hist s)) eqn:Ev; [reflexivity|].
+    pose proof (c_ord s HC Ev) as Ho. unfold seqn, pend in Ho. rewrite He in Ho. cbn [xpend] in Ho.
+    rewrite <- (firstn_skipn (maxb c) rs) in Ho. rewrite <- !app_assoc in Ho.
+    rewrite ordered_app in Ho. apply andb_true_iff in Ho as [Ho H3]. apply andb_true_iff in Ho as [H1 H2].
+    rewrite ordered_app in H3. apply andb_true_iff in H3 as [H3 _]. apply andb_true_iff in H3 as [H3 _].
+    rewrite cross_app_r in H2. apply andb_true_iff in H2 as [H2 _].
+    rewrite ordered_after_eq, H2, H3 in Eo. discriminate.
+  - apply negb_true_iff. destruct (shut_returned all_guards (hist s)) eqn:Eq; [|reflexivity].
+    pose proof (d_quiet s HD Eq). congruence.
+Qed.
+
+(** ** the exporter-side part of the specification along every schedule *)
+Definition safe_ev (c : config) (pre : history) (e : event) : bool :=
+  match e with
+  | EvBegin b => begin_ok all_guards c pre b
+  | EvEnd _ => open_export pre
+  | _ => true
+  end.
+
+Lemma safe_step c s a s' :
+  valid c -> Inv c s -> step c s a = Some s' ->
+  all_pos (safe_ev c) (hist s) = true -> all_pos (safe_ev c) (hist s') = true.
+Proof.
+  intros Hv Hi H Hs. pose proof (a_open s (iA c s Hi)) as Hopen.
+  destruct a; open_step H; sst'; rewrite ?all_pos_snoc, ?Hs; cbn [safe_ev andb]; auto.
+  (* Export entered *)
+  eapply begin_ok_holds; eauto.
+Qed.
+
+Lemma safe_run c sch : valid c -> forall s s', Inv c s -> all_pos (safe_ev c) (hist s) = true ->
+  run_from c s sch = Some s' -> all_pos (safe_ev c) (hist s') = true.
+Proof.
+  intro Hv. induction sch as [|a r IH]; cbn; intros s s' Hi Hs H.
+  - inversion H; now subst.
+  - destruct (step c s a) eqn:E; [|discriminate].
+    eapply IH; [eapply inv_step; eauto | eapply safe_step; eauto | exact H].
+Qed.
+
+Theorem safe_reach c sch s : valid c -> exec c sch = Some s -> all_pos (safe_ev c) (hist s) = true.
+Proof. intros Hv H. eapply safe_run; eauto using inv_init. Qed.
+
+(** reading a position-wise verdict at one position *)
+Lemma all_from_at f pre h1 e h2 :
+  all_from f pre (h1 ++ e :: h2) = true -> f (pre ++ h1) e = true.
+Proof.
+  revert pre; induction h1 as [|x h1 IH]; intros pre H; cbn in H; apply andb_true_iff in H as [H1 H2].
+  - now rewrite app_nil_r.
+  - specialize (IH _ H2). now rewrite <- app_assoc in IH.
+Qed.
+Lemma all_pos_at f h1 e h2 : all_pos f (h1 ++ e :: h2) = true -> f h1 e = true.
+Proof. intro H. now apply all_from_at in H. Qed.
+
+(** ** Prop readings *)
+Section Readings.
+  Variables (c : config) (sch : list action) (s : st).
+  Hypothesis Hv : valid c.
+  Hypothesis Hr : exec c sch = Some s.
+
+  Lemma begin_at h1 b h2 :
+    hist s = h1 ++ EvBegin b :: h2 -> begin_ok all_guards c h1 b = true.
+  Proof.
+    intro Hh. pose proof (safe_reach c sch s Hv Hr) as Hs. rewrite Hh in Hs.
+    exact (all_pos_at _ _ _ _ Hs).
+  Qed.
+
+  Lemma p_batch_bound h1 b h2 :
+    hist s = h1 ++ EvBegin b :: h2 -> 1 <= length b /\ length b <= maxb c.
+  Proof.
+    intro Hh. pose proof (begin_at _ _ _ Hh) as Hb. unfold begin_ok in Hb.
+    rewrite !andb_true_iff in Hb. destruct Hb as [[[[[[H1 H2] _] _] _] _] _].
+    split; now apply Nat.leb_le.
+  Qed.
+
+  Lemma p_exclusive_begin h1 b h2 :
+    hist s = h1 ++ EvBegin b :: h2 -> open_export h1 = false.
+  Proof.
+    intro Hh. pose proof (begin_at _ _ _ Hh) as Hb. unfold begin_ok in Hb.
+    rewrite !andb_true_iff in Hb. destruct Hb as [[[[[[_ _] H3] _] _] _] _].
+    now apply negb_true_iff in H3.
+  Qed.
+  Lemma p_exclusive_end h1 ok h2 :
+    hist s = h1 ++ EvEnd ok :: h2 -> open_export h1 = true.
+  Proof.
+    intro Hh. pose proof (safe_reach c sch s Hv Hr) as Hs. rewrite Hh in Hs.
+    exact (all_pos_at _ _ _ _ Hs).
+  Qed.
+
+  Lemma p_quiet h1 b h2 :
+    hist s = h1 ++ EvBegin b :: h2 -> shut_returned all_guards h1 = false.
+  Proof.
+    intro Hh. pose proof (begin_at _ _ _ Hh) as Hb. unfold begin_ok in Hb.
+    rewrite !andb_true_iff in Hb. destruct Hb as [_ H7]. now apply negb_true_iff in H7.
+  Qed.
+
+  Lemma p_conservation :
+    Permutation (enq s) (exported (hist s) ++ dropped s ++ lostE s ++ lostD s ++ pend s) /\
+    NoDup (enq s) /\ incl (enq s) (emitted (hist s)).
+  Proof.
+    destruct (inv_reach c sch s Hv Hr) as [_ HB _ _ _ _ _]. repeat split.
+    - apply (Permutation_count_occ rec_eq_dec). intro x.
+      pose proof (b_cnt s HB x) as H. unfold total, cnt in *. unfold pend.
+      rewrite !count_occ_app. lia.
+    - apply NoDup_cnt. apply (b_nodup s HB).
+    - intros x Hx. now apply (b_prov s HB).
+  Qed.
+
+  Lemma p_at_most_once : NoDup (exported (hist s)).
+  Proof.
+    destruct (inv_reach c sch s Hv Hr) as [_ HB _ _ _ _ _]. apply NoDup_cnt. intro x.
+    pose proof (b_nodup s HB x) as H. rewrite (b_cnt s HB x) in H. unfold total in H. lia.
+  Qed.
+
+  Lemma p_clone_isolation x : In x (exported (hist s)) -> In x (emitted (hist s)).
+  Proof.
+    intro Hx. destruct (inv_reach c sch s Hv Hr) as [_ HB _ _ _ _ _].
+    apply (b_prov s HB). apply seqn_in_enq; [assumption|]. apply in_or_app; now left.
+  Qed.
+
+  Lemma p_order : overlap (hist s) = false -> ordered (exported (hist s)) = true.
+  Proof.
+    intro Ho. destruct (inv_reach c sch s Hv Hr) as [_ _ HC _ _ _ _].
+    pose proof (c_ord s HC Ho) as H. unfold seqn in H. rewrite ordered_app in H.
+    apply andb_true_iff in H as [H _]. now apply andb_true_iff in H as [H _].
+  Qed.
+End Readings.
+
+(** ** visibility at the moment ForceFlush / Shutdown return nil *)
+Lemma visible_holds c s t :
+  Inv c s -> place s (pcs s t) = Some (base s) -> guard s t -> visible c (hist s) t = true.
+Proof.
+  intros Hi Hp G. unfold visible. apply forallb_forall. intros r Hr.
+  pose proof (v_place s (iV c s Hi) t _ Hp G r Hr) as Hb. unfold base in Hb.
+  destruct (memb r (exported (hist s))) eqn:Em; [reflexivity|].
+  apply in_app_or in Hb as [Hb|Hb]; [apply memb_In in Hb; congruence|].
+  now apply (iX c s Hi).
+Qed.
+
+Lemma flush_ok_holds c s t :
+  Inv c s -> pcs s t = F5 RNil -> flush_ok all_guards c (hist s) t = true.
+Proof.
+  intros Hi Hp. unfold flush_ok. cbn [all_guards g_shut g_fail andb].
+  destruct (1 <=? shut_calls (hist s)) eqn:Es; [reflexivity|].
+  destruct (has_fail (hist s)) eqn:Ef; [reflexivity|].
+  apply visible_holds; auto.
+  - rewrite Hp. reflexivity.
+  - repeat split; auto.
+    + intros _. rewrite (a_stopped s (iA c s Hi)). exact Es.
+    + rewrite Hp. discriminate.
+Qed.
+
+Lemma visible_ext c h t e :
+  is_call_of t e = false -> visible c h t = true -> visible c (h ++ [e]) t = true.
+Proof.
+  unfold visible. intros Hc Hv. rewrite before_call_snoc, Hc.
+  apply forallb_forall. intros r Hr. rewrite forallb_forall in Hv. specialize (Hv r Hr).
+  destruct (memb r (exported h)) eqn:Em.
+  - apply memb_In in Em. assert (In r (exported (h ++ [e]))) by (rewrite exported_snoc; apply in_or_app; now left).
+    apply memb_In in H. now rewrite H.
+  - destruct (memb r (exported (h ++ [e]))); [reflexivity|]. now apply excused_mono.
+Qed.
+
+Lemma shut_ok_holds c s t :
+  Inv c s -> pcs s t = S8 RNil -> shut_ok all_guards c (hist s ++ [EvExpShutdown]) t = true.
+Proof.
+  intros Hi Hp. unfold shut_ok. cbn [all_guards g_shut g_fail andb].
+  rewrite shut_calls_snoc, has_fail_snoc. cbn [is_shut_call is_fail]. rewrite Nat.add_0_r, orb_false_r.
+  destruct (2 <=? shut_calls (hist s)) eqn:Es; [reflexivity|].
+  destruct (has_fail (hist s)) eqn:Ef; [reflexivity|].
+  apply visible_ext; [reflexivity|]. apply visible_holds; auto.
+  - rewrite Hp. reflexivity.
+  - repeat split; auto.
+    + rewrite Hp. discriminate.
+    + intros _. apply Nat.leb_gt in Es. lia.
+Qed.
+
+(** ** the whole (guarded) specification along every schedule *)
+Lemma spec_step c s a s' :
+  valid c -> Inv c s -> step c s a = Some s' ->
+  spec_ok c (hist s) = true -> spec_ok c (hist s') = true.
+Proof.
+  intros Hv Hi H Hs. unfold spec_ok, spec_gen in *.
+  pose proof (a_open s (iA c s Hi)) as Hopen.
+  pose proof (a_stopped s (iA c s Hi)) as Hst.
+  pose proof (a_bstop s (iA c s Hi)) as Hbs.
+  pose proof (a_early s (iA c s Hi)) as Hea.
+  destruct a; open_step H; sst'; rewrite ?all_pos_snoc, ?Hs; cbn [ev_ok andb]; auto.
+  - (* ForceFlush after Shutdown: guarded *)
+    unfold flush_ok. cbn [all_guards g_shut andb]. rewrite shut_calls_snoc. cbn [is_shut_call].
+    rewrite Heqb in Hst. symmetry in Hst. apply Nat.leb_le in Hst.
+    replace (1 <=? shut_calls (hist s) + 0) with true by (symmetry; apply Nat.leb_le; lia). reflexivity.
+  - (* second Shutdown: guarded *)
+    unfold shut_ok. cbn [all_guards g_shut andb]. rewrite shut_calls_snoc. cbn [is_shut_call].
+    rewrite Heqb in Hst. symmetry in Hst. apply Nat.leb_le in Hst.
+    replace (2 <=? shut_calls (hist s) + 1) with true by (symmetry; apply Nat.leb_le; lia). reflexivity.
+  - (* ForceFlush finds the buffer exporter stopped: guarded *)
+    destruct e; auto. unfold flush_ok. cbn [all_guards g_shut andb].
+    rewrite (Hbs eq_refl) in Hst. now rewrite <- Hst.
+  - (* ForceFlush returns *)
+    destruct e; auto. now apply flush_ok_holds.
+  - (* unreachable: the buffer exporter is stopped only by this very call *)
+    exfalso. specialize (Hea t). rewrite Heqp in Hea. specialize (Hea eq_refl). discriminate.
+  - (* Shutdown returns *)
+    destruct e; auto. now apply shut_ok_holds.
+  - (* Export entered *)
+    eapply begin_ok_holds; eauto.
+Qed.
+
+Lemma spec_run c sch : valid c -> forall s s', Inv c s -> spec_ok c (hist s) = true ->
+  run_from c s sch = Some s' -> spec_ok c (hist s') = true.
+Proof.
+  intro Hv. induction sch as [|a r IH]; cbn; intros s s' Hi Hs H.
+  - inversion H; now subst.
+  - destruct (step c s a) eqn:E; [|discriminate].
+    eapply IH; [eapply inv_step; eauto | eapply spec_step; eauto | exact H].
+Qed.
+
+Theorem spec_reach c sch s : valid c -> exec c sch = Some s -> spec_ok c (hist s) = true.
+Proof. intros Hv H. eapply spec_run; eauto using inv_init. Qed.
+
+
+Section Readings2.
+  Variables (c : config) (sch : list action) (s : st).
+  Hypothesis Hv : valid c.
+  Hypothesis Hr : exec c sch = Some s.
+
+  Lemma visible_reading h t r :
+    visible c h t = true -> In r (emit_rets (before_call t h)) ->
+    In r (exported h) \/ excused c h r = true.
+  Proof.
+    unfold visible. rewrite forallb_forall. intros H Hi. specialize (H r Hi).
+    destruct (memb r (exported h)) eqn:E; [left; now apply memb_In | now right].
+  Qed.
+
+  Lemma p_flush_visibility h1 t h2 :
+    hist s = h1 ++ EvRet t OpFlush RNil :: h2 ->
+    shut_calls h1 = 0 -> has_fail h1 = false ->
+    forall r, In r (emit_rets (before_call t h1)) -> In r (exported h1) \/ excused c h1 r = true.
+  Proof.
+    intros Hh Hs Hf r Hi. pose proof (spec_reach c sch s Hv Hr) as Hsp.
+    unfold spec_ok, spec_gen in Hsp. rewrite Hh in Hsp.
+    apply (all_pos_at _ h1 (EvRet t OpFlush RNil) h2) in Hsp.
+    cbn [ev_ok] in Hsp. unfold flush_ok in Hsp. rewrite Hs, Hf in Hsp. cbn in Hsp.
+    now apply (visible_reading h1 t r).
+  Qed.
+
+  Lemma p_shutdown_drains h1 t h2 :
+    hist s = h1 ++ EvRet t OpShutdown RNil :: h2 ->
+    shut_calls h1 <= 1 -> has_fail h1 = false ->
+    forall r, In r (emit_rets (before_call t h1)) -> In r (exported h1) \/ excused c h1 r = true.
+  Proof.
+    intros Hh Hs Hf r Hi. pose proof (spec_reach c sch s Hv Hr) as Hsp.
+    unfold spec_ok, spec_gen in Hsp. rewrite Hh in Hsp.
+    apply (all_pos_at _ h1 (EvRet t OpShutdown RNil) h2) in Hsp.
+    cbn [ev_ok] in Hsp. unfold shut_ok in Hsp. rewrite Hf in Hsp.
+    replace (2 <=? shut_calls h1) with false in Hsp by (symmetry; apply Nat.leb_gt; lia).
+    cbn in Hsp. now apply (visible_reading h1 t r).
+  Qed.
+End Readings2.
